@@ -294,6 +294,23 @@ def one_round(mon, rec, rng, rp):
             rec.count('identity.checked', 3)
         except md.OutOfRange:
             pass
+    # instants a few microseconds apart, at any distance from 1970 and at another offset: ordering has the full
+    # microsecond resolution of the values (a float number of seconds has not)
+    delta = rng.choice([1, -1, 2, -3, 999, 1000000, -1000001])
+    om3 = gen_offset_min(rng)
+    try:
+        p3 = md.check_range((dm[0] + delta, om3 * 60 * US))
+        md.check_range((dm[0] + delta, 0))
+        f3 = md.fields(p3)
+        n_text = 'datetime(%d, %d, %d, %d, %d, %d, %d, timespan(minutes => %d))' % (
+            f3['year'], f3['month'], f3['day'], f3['hour'], f3['minute'], f3['second'], f3['microsecond'], om3)
+        for op, fn in (('<', lambda a, b: a < b), ('<=', lambda a, b: a <= b), ('>', lambda a, b: a > b), ('>=', lambda a, b: a >= b),
+                       ('=', lambda a, b: a == b)):
+            check(mon, rec, 'cmp-near' + op, '%s %s %s' % (D, op, n_text), vars_, lambda fn=fn: fn(0, delta), K, 'exact', rp)
+        check(mon, rec, 'diff-near', '(%s - %s).microseconds' % (n_text, D), vars_, lambda: delta, K, 'exact', rp)
+        rec.count('identity.checked', 2)
+    except md.OutOfRange:
+        pass
     mixed_eq = ('naive' in K2) and not all(k == 'naive' for k in K2)
     check(mon, rec, 'eq' + ('-naive-vs-aware' if mixed_eq else ''), '%s = %s' % (D, D2), vars_, lambda: dm[0] == em[0], K2, 'exact', rp)
     # replace
